@@ -344,7 +344,7 @@ def main(prop, tier, seed, replay=None):
         'wall_s': round(wall, 2),
         'violations': len(violations),
     }
-    evdir = os.path.join(ROOT, 'evidence')
+    evdir = os.environ.get('VERIF_EVIDENCE_DIR') or os.path.join(ROOT, 'evidence')
     os.makedirs(evdir, exist_ok=True)
     with open(os.path.join(evdir, f'{prop}.json'), 'w') as fh:
         json.dump(evidence, fh, indent=1, sort_keys=True, default=str)
